@@ -143,6 +143,16 @@ def chk_bayer(case, acc, seed):
                     break
             if rm.maxerr(sum(np.asarray(g) for g in got), exp) > 1e-12:
                 acc.violation(f'bayer:channels-sum:{osk}', case, 'channel images do not sum to the flattened image')
+    # a single-wavelength 2-D frame is a one-slice cube
+    if flatten and tiles == (1, 2) and os_ <= 2:
+        try:
+            g2 = np.asarray(lentil.detector.collect_charge_bayer(img[0], waves[:1], qe['R'][:1], qe['G'][:1], qe['B'][:1], pat, oversample=os_))
+            g3 = np.asarray(lentil.detector.collect_charge_bayer(img[:1], waves[:1], qe['R'][:1], qe['G'][:1], qe['B'][:1], pat, oversample=os_))
+            if g2.shape != shape or rm.maxerr(g2, g3) > 1e-12:
+                acc.violation('bayer:2d-image', case, f'a 2-D frame ({g2.shape}) is handled differently from the one-slice cube ({g3.shape})')
+        except Exception as e:
+            acc.violation(f'bayer:2d-image:raises:{type(e).__name__}', case, repr(e))
+        acc.cls('bayer:2d')
     # efficiencies given as Spectrum objects that share one wavelength array, sampled at wavelengths given in another unit
     if case.get('spectra'):
         from lentil.radiometry import Spectrum
@@ -384,7 +394,7 @@ def run(tier, seed, acc, procs=None):
         'assumptions': ['dyadic electron counts and gains: every intermediate is exact in binary floating point',
                         'pattern strings are read row-major'],
         'require': {'bayer:k=2': 1000, 'bayer:k=3': 1000, 'bayer:os=3': 500, 'bayer:os=4': 500, 'adc:polynomial': 50, 'adc:per-pixel': 20,
-                    'adc:per-pixel-polynomial': 20, 'adc:scalar': 20, 'collect': 9, 'collect:edited-spectrum': 50, 'adc:singleton-axis': 50},
+                    'adc:per-pixel-polynomial': 20, 'adc:scalar': 20, 'collect': 9, 'collect:edited-spectrum': 50, 'adc:singleton-axis': 50, 'bayer:2d': 50},
     }
 
 
